@@ -100,18 +100,21 @@ func (u *upstream) Serve() {
 		defer wg.Done()
 		u.hkc.Run(u.quit)
 	}()
-	wg.Wait()
+	<-u.quit
 
-	// stop all clients. The lock must not be held while waiting for them: a
-	// client which is redirecting a request may be about to take it in
-	// createClient, and would never finish. No client can be added after the
-	// snapshot, createClient tests quit under the lock.
+	// stop all clients, before waiting for the loops: the refresh loop may
+	// be parked handing its request to a client whose queues are full, only
+	// the stop of that client releases it. The lock must not be held while
+	// waiting for them: a client which is redirecting a request may be about
+	// to take it in createClient, and would never finish. No client can be
+	// added after the snapshot, createClient tests quit under the lock.
 	u.clientsMu.Lock()
 	clients := u.loadClients()
 	u.clientsMu.Unlock()
 	for _, c := range clients {
 		c.Stop()
 	}
+	wg.Wait()
 	close(u.done)
 }
 
